@@ -907,21 +907,34 @@ class RoundsUnderHalt(Harness):
     nontrivial_event = "a halt fired"
     reach = ("nontrivial", "order-after-halt-in-same-step", "cross-on-second-target-after-resume")
     bounds = {"quick": "(a) one market, seller of 2 lots and two buyers in the step of the halt; (b) two target markets of "
-                       "one rule, halt on the first, resumption, then crossing quotes on the second; halt length 1",
+                       "one rule, halt on the first, resumption, then crossing quotes on the second; halt length 1; (c) a halt of 3 "
+                       "steps fired in the last step of a 2-step execution session, then 4 steps without execution with "
+                       "crossing quotes on another market",
               "thorough": "same"}
     agreement_runs = 4
 
     def cases(self, tier):
-        return [{"kind": "same-step"}, {"kind": "two-targets"}]
+        return [{"kind": "same-step"}, {"kind": "two-targets"}, {"kind": "into-noexec", "both": False},
+                {"kind": "into-noexec", "both": True}]
 
     def run(self, g, case):
         two = case["kind"] == "two-targets"
-        markets = {f"M{i}": {"class": "Market", "tickSize": 1, "marketPrice": 300} for i in range(2 if two else 1)}
+        carry = case["kind"] == "into-noexec"
+        markets = {f"M{i}": {"class": "Market", "tickSize": 1, "marketPrice": 300} for i in range(2 if two or carry else 1)}
         sessions = [rn.session(0, 4, True, True, maxNormalOrders=3, events=["HALT"])]
-        st = rn.base_settings(n_agents=2 if two else 3, sessions=sessions, markets=markets,
-                              extra={"HALT": {"class": "TradingHaltRule", "targetMarkets": list(markets),
-                                              "triggerChangeRate": 0.5, "haltingTimeLength": 1}})
-        if two:
+        if carry:
+            # a halt fired in the last step of an execution session and longer than it, followed by a session
+            # without execution in which crossing quotes pile up on the other market
+            sessions = [rn.session(0, 2, True, True, maxNormalOrders=3, events=["HALT"]),
+                        rn.session(1, 4, True, False, maxNormalOrders=3, events=["HALT"] if case["both"] else [])]
+        st = rn.base_settings(n_agents=2 if two or carry else 3, sessions=sessions, markets=markets,
+                              extra={"HALT": {"class": "TradingHaltRule", "targetMarkets": ["M0"] if carry else list(markets),
+                                              "triggerChangeRate": 0.5, "haltingTimeLength": 3 if carry else 1}})
+        if carry:
+            menu = {"acts": ["limit"], "vol_fixed": 1, "price_hi": 1000, "price_by_time": {"1": "sym", "default": 300},
+                    "market_by_time": {"1": 0, "2": 1, "3": 1, "4": 1, "5": 1}, "active_from": 1,
+                    "per_agent": {"0": {"side": "B"}, "1": {"side": "S"}}}
+        elif two:
             # t=1: buyer and seller on M0 at solver-chosen prices (may halt); t=3 (after the resumption): crossing
             # quotes at 300 on M1
             menu = {"acts": ["limit"], "vol_fixed": 1, "price_hi": 1000, "price_by_time": {"1": "sym", "default": 300},
